@@ -393,16 +393,21 @@ def compact(paths):
     return states, acts, out
 
 
+def unit_ms(ctx):
+    """Real time per model clock unit (>= 2.5 s: timestamps have a granularity of one second)."""
+    return int(os.environ.get("VERIF_SLEEPCMD_UNIT_MS", "3000" if ctx.quick() else "4000"))
+
+
 def replay_flood(ctx, name, inst, paths):
     """Executes the paths on real Flooders.  Stalled paths (a step left the safe zone of its clock value) are re-run
     with a larger time unit; never a verdict."""
-    unit = int(os.environ.get("VERIF_SLEEPCMD_UNIT_MS", "3000"))
+    unit = unit_ms(ctx)
     todo = list(range(len(paths)))
     recs, steps, rounds = {}, 0, 0
     while todo:
         rounds += 1
-        if rounds > 3:
-            raise vf.Infra("flood replay (%s): %d paths still stalled after 3 rounds (machine too loaded for unit %d ms)"
+        if rounds > 4:
+            raise vf.Infra("flood replay (%s): %d paths still stalled after 4 rounds (machine too loaded for unit %d ms)"
                            % (name, len(todo), unit))
         fn = os.path.join(ctx.work, "sleepcmd_%s_%d.json" % (name, rounds))
         states, acts, cp = compact([paths[i] for i in todo])
@@ -457,18 +462,25 @@ def validate(ctx, inst, tracefile, dev=(), invs=TRACE_INVS, name="trace"):
 def traces(ctx, pid, stats):
     """code -> spec: random adversarial schedules on real Flooders, validated by TLC against the ideal design."""
     inst = trace_instance(ctx)
-    unit = int(os.environ.get("VERIF_SLEEPCMD_UNIT_MS", "3000"))
+    unit = unit_ms(ctx)
     fn = os.path.join(ctx.work, "sleepcmd_trace_in.json")
     out = os.path.join(ctx.work, "sleepcmd_trace.ndjson")
-    d = harness_input(inst, [], unit_ms=unit, slack_ms=unit // 2 - 700, spread_ms=unit, local=inst["local"],
-                      maxclock=inst["maxclock"], traces=inst["traces"], ops=inst["ops"])
-    vf.write_json(fn, d)
-    r = ctx.gotest("flood", HF_FLOOD, "^TestZZVSleepCmdTrace$", env={"ZZV_IN": fn, "ZZV_OUT": out}, timeout=900)
-    summ = r.of("summary")
-    if not summ:
-        raise vf.Infra("trace driver produced no summary:\n" + r.out[-3000:])
-    summ = summ[0]
-    if summ["traces"] < max(1, inst["traces"] // 2):
+    for rounds in range(1, 4):
+        # executions in which a step left the safe zone of its clock value are not logged; too few left -> larger unit
+        d = harness_input(inst, [], unit_ms=unit, slack_ms=unit // 2 - 700, spread_ms=unit, local=inst["local"],
+                          maxclock=inst["maxclock"], traces=inst["traces"], ops=inst["ops"])
+        vf.write_json(fn, d)
+        r = ctx.gotest("flood", HF_FLOOD, "^TestZZVSleepCmdTrace$", env={"ZZV_IN": fn, "ZZV_OUT": out}, timeout=900)
+        summ = r.of("summary")
+        if not summ:
+            raise vf.Infra("trace driver produced no summary:\n" + r.out[-3000:])
+        summ = summ[0]
+        ctx.log("trace driver round %d: %d executions logged, %d stalled, unit %d ms" % (rounds, summ["traces"],
+                                                                                        summ["stalled"], unit))
+        if summ["traces"] >= max(20, inst["traces"] // 3):
+            break
+        unit = unit * 3 // 2
+    else:
         raise vf.Infra("trace driver: %d of %d executions left their time zones (machine too loaded)" % (
             summ["stalled"], inst["traces"]))
     events = []
@@ -579,7 +591,7 @@ def fmt_act(a):
     return a.get("act", "?")
 
 
-def judge(ctx, pid, level, inst, paths, recs, devrel, stats, pr=proj, cex=False):
+def judge(ctx, pid, level, inst, paths, recs, devrel, stats, pr=proj, cex=False, iname=""):
     """Turn the harness records of one replay into findings of property `pid` (cex: only the counterexample paths,
     judged first because their artefact is the complete failing history; otherwise only the other paths)."""
     for pi, rec in sorted(recs.items()):
@@ -609,7 +621,7 @@ def judge(ctx, pid, level, inst, paths, recs, devrel, stats, pr=proj, cex=False)
                 and rec.get("real_res", "") == rec.get("spec_res", ""):
             stats["alts"] += 1          # another admissible outcome of a nondeterministic step
             if si < len(path["steps"]) - 1:
-                stats["cut"].setdefault((level, path.get("grp")), []).append(pi)
+                stats["cut"].setdefault((iname, path.get("grp")), []).append(pi)
             continue
         s = pre_state(path, si)
         if not s["key"]:
@@ -678,15 +690,13 @@ def run(ctx, pid):
             recs = out[name][0]
             steps += 0 if cex else out[name][1]
             judge(ctx, pid, "agent" if name == "agent" else "flooder", insts[name], plans[name]["paths"], recs,
-                  m["rel"][name], stats, proj_agent if name == "agent" else proj, cex)
+                  m["rel"][name], stats, proj_agent if name == "agent" else proj, cex, name)
+    # replicated paths (a nondeterministic step inside): lost if every replica took another branch
     lost = 0
-    for (level, grp), cut in stats["cut"].items():
-        name = "agent" if level == "agent" else None
-        for n in plans:
-            if (n == "agent") == (level == "agent"):
-                total = len([p for p in plans[n]["paths"] if p.get("grp") == grp and grp is not None])
-                if total and len(cut) >= total:
-                    lost += 1
+    for (n, grp), cut in stats["cut"].items():
+        total = len([p for p in plans.get(n, {"paths": []})["paths"] if grp is not None and p.get("grp") == grp])
+        if total and len(cut) >= total:
+            lost += 1
     stats["nondet_lost"] = lost
     del stats["cut"]
     if out["trace"].get("finding"):
